@@ -17,7 +17,8 @@ class MachineryError(Exception):
 
 
 def _java(args, env=None, timeout=None, heap="2g", cwd=SPEC_DIR, gcthreads=2):
-    cmd = ["java", "-XX:+UseParallelGC", "-XX:ParallelGCThreads=%d" % gcthreads, "-Xmx" + heap, "-Xss64m", "-cp", JAVA_CP, "tlc2.TLC"] + args
+    gc = ["-XX:+UseSerialGC", "-XX:CICompilerCount=2"] if gcthreads <= 2 else ["-XX:+UseParallelGC", "-XX:ParallelGCThreads=%d" % gcthreads]
+    cmd = ["java"] + gc + ["-Xmx" + heap, "-Xss64m", "-cp", JAVA_CP, "tlc2.TLC"] + args
     e = dict(os.environ)
     if env:
         e.update(env)
